@@ -6,6 +6,7 @@ package main
 //	multi  : F(A) F(B) C            A, B files over metrics {1}, {2}, {1,2} (curated block shapes per metric)
 //	triple : F(A) F(B) F(C) C       metric 1, curated block shapes
 //	l1     : F F C F F C            an earlier compaction produced a level-1 file (overlapping or not)
+//	span   : F F C F F C            the same over files holding any subset of three metrics (a level-1 file may span another one)
 //	wide   : F(A) F(B) C            slot range of 362 slots (> 360) next to short ones
 //	seq    : all sequences of length <= 4 over {flush of a curated file, compact}; threshold 0
 //	         (Family.Compact(), >=2 L0 files) and threshold 1 (store job: trivial move, 1 x L0 + L1 merges)
@@ -316,6 +317,13 @@ func forEachCase(thorough bool, f func(c *Case) bool) {
 		}) {
 			return
 		}
+	}
+	// span: three metrics (keys 1,2,3), files holding any non-empty subset: the second compaction may produce a level-1
+	// file whose key range spans an older level-1 file without sharing a key with it ({2} {2} C {1} {3} C)
+	if !product(rollFiles(1), 4, func(t [][]Block) bool {
+		return emit("span", 0, 0, flush(t[0]), flush(t[1]), compactStep, flush(t[2]), flush(t[3]), compactStep)
+	}) {
+		return
 	}
 	// seq: every sequence of length <= 4 (thorough: also length 5 over the quick alphabet)
 	nq := 6
